@@ -94,7 +94,18 @@ META["C12"] = {
     "technique": "stateless model checking of the implementation under a controlled scheduler (all interleavings, state-key pruning, POR)",
 }
 
-ENGINE_OF = {"C12": "sched", "C03": "seq", "C06": "seq+sched", "C09": "sched", "C08": "seq", "C02": "seq+sched", "C04": "seq+sched", "C01": "seq+sched"}
+META["C10"] = {
+    "level": "model_checking",
+    "rule": "sequential: per configuration (threshold 0/0.5/1/2/3/1000 x interval 1000 ms/10 ms/default x max queueing 0/1/500/1000 ms x sleep advances the clock or not) BFS over all arrival histories (requests of batch 1/2, clock advances of 1 ns, half / one-less / exactly / one-more / three spacings, the queueing limit +-1 ns) to the depth bound through api.Entry; pass time = arrival + requested sleep; oracle: spacing to the previous pass time >= batch*interval/threshold (exact), wait <= limit, every rejection justified; concurrent: ALL interleavings of 2-4 threads calling ThrottlingChecker.DoCheck (1-2 calls each) with clock ticks as thread steps at atomic-access granularity; oracle on the sorted pass times (arrival = the value the call itself read from the clock), waits, and rejections justified under some linearisation; distinct outcome = configuration + answer vector",
+    "assumptions": [A_SHIM, A_CLOCK, A_OVERLAY, "the required spacing is rounded up to whole nanoseconds when a rejection is judged (time is in ns)"],
+    "budget_quick": 90,
+    "budget_thorough": 900,
+    "text": "Explicit-state exploration of nanosecond arrival histories through the real entry path, plus exhaustive interleavings of concurrent DoCheck callers and clock ticks on the real checker.",
+    "level_note": "Bounded depth (7 quick / 10 thorough); concurrent clause: 2-4 threads, <=2 calls each, <=2 ticks, sequentially consistent atomics.",
+    "technique": "explicit-state BFS over operation sequences + stateless model checking of all interleavings under a controlled scheduler, on the implementation",
+}
+
+ENGINE_OF = {"C10": "seq+sched", "C12": "sched", "C03": "seq", "C06": "seq+sched", "C09": "sched", "C08": "seq", "C02": "seq+sched", "C04": "seq+sched", "C01": "seq+sched"}
 
 # properties not claimed, with the reason (kept current)
 NOT_APPLICABLE = {}
